@@ -678,3 +678,98 @@ def _inline_consts(n, consts):
         v["from_const"] = n["def"]
         return v
     return {k: (_inline_consts(v, consts) if isinstance(v, (dict, list)) else v) for k, v in n.items()}
+
+
+# ---------------------------------------------------------------------------
+# edit distance between two versions of a function, in units of simple statements and conditions
+
+def units(body):
+    """multiset (list) of canonical texts of the simple statements, conditions, scrutinees, loop headers and result
+    expressions of a body: what a small edit changes a few of and a restructuring changes most of"""
+    out = []
+
+    def simple(n):
+        return not any(x.get("k") in ("if", "match", "for", "while", "loop", "closure") or
+                       (x.get("k") == "block" and x.get("stmts")) for x in walk(n))
+
+    def go(n):
+        if isinstance(n, list):
+            for x in n:
+                go(x)
+            return
+        if not isinstance(n, dict):
+            return
+        k = n.get("k")
+        if k == "block":
+            for s in n.get("stmts") or []:
+                go(s)
+            if n.get("expr") is not None:
+                e = n["expr"]
+                if isinstance(e, dict) and simple(e):
+                    out.append("R:" + _ctext(e))
+                else:
+                    go(e)
+            return
+        if k in ("let", "letx"):
+            if n.get("init") is not None and simple(n["init"]):
+                out.append("L:" + _ctext(n["init"]))
+            else:
+                out.append("L:*")
+                go(n.get("init"))
+            go(n.get("els"))
+            return
+        if k == "if":
+            c = n.get("cond")
+            if isinstance(c, dict) and simple(c):
+                out.append("C:" + _ctext(c))
+            else:
+                go(c)
+            go(n.get("then"))
+            go(n.get("else"))
+            return
+        if k == "match":
+            e = n.get("e")
+            out.append("M:" + (_ctext(e) if isinstance(e, dict) and simple(e) else "*"))
+            for a in n.get("arms") or []:
+                out.append("A:" + _ctext(a.get("pat")))
+                b = a.get("body")
+                if isinstance(b, dict) and simple(b):
+                    out.append("R:" + _ctext(b))
+                else:
+                    go(b)
+            return
+        if k in ("for", "while", "loop"):
+            h = n.get("iter") if k == "for" else n.get("cond")
+            out.append("H:" + (_ctext(h) if isinstance(h, dict) and simple(h) else k))
+            go(n.get("body"))
+            return
+        if k == "closure":
+            go(n.get("body"))
+            return
+        if k == "ret":
+            e = n.get("e")
+            if isinstance(e, dict) and simple(e):
+                out.append("R:" + _ctext(e))
+            else:
+                go(e)
+            return
+        if simple(n):
+            out.append("S:" + _ctext(n))
+            return
+        for kk, v in n.items():
+            if kk in ("pat", "pats", "params"):
+                continue
+            if isinstance(v, (dict, list)):
+                go(v)
+    go(body)
+    return out
+
+
+def unit_distance(a, b):
+    """(number of units only in one of the two, similarity in [0,1])"""
+    from collections import Counter
+    ca, cb = Counter(a), Counter(b)
+    common = sum((ca & cb).values())
+    total = max(sum(ca.values()), sum(cb.values()), 1)
+    changed = sum((ca - cb).values()) + sum((cb - ca).values())
+    return changed, common / total
